@@ -166,6 +166,28 @@ def check_tolerances(prog, rep, rule, roots):
                         rep.undecided(rule, key, text)
                     else:
                         (rep.ok if ok else rep.viol)(rule, key, text, site_of(f.body))
+    # the anchors are the roots: a root from which no data-difference test was read (the comparison sits in a helper taking
+    # scalars, behind an iterator adaptor, ...) is recorded as not read rather than silently dropped
+    for r0 in roots:
+        f0 = prog.func(r0)
+        if f0 is None:
+            continue
+        reach, work = set(), [r0]
+        while work:
+            k = work.pop()
+            if k in reach:
+                continue
+            reach.add(k)
+            g = prog.func(k)
+            if g is None:
+                continue
+            for c in g.calls():
+                if c.path and c.path.startswith('linalg::') and prog.func(c.path) is not None and pdb.bodies[c.path].local_ty(0) == 'bool':
+                    work.append(c.path)
+        keys = {'%s:%s' % (rule, k) for k in reach}
+        if not any(o_.rule == rule and o_.key in keys for o_ in getattr(rep, 'obs', [])):
+            rep.undecided(rule, '%s:%s' % (rule, r0), 'no comparison of two data reads makes this predicate (or a bool predicate it calls) answer false in a read form: '
+                          'the tolerance is not read', site_of(f0.body), proof=False)
     return n
 
 
